@@ -94,6 +94,22 @@ def val_from_json(o):
     return o
 
 
+def strip_described(fam, v):
+    """Copy of a value tree without the described (AutoLength) leaves, at every depth: a packet built from
+    it leaves those fields automatic."""
+    if isinstance(v, list):
+        return [strip_described(fam, x) for x in v]
+    if not isinstance(v, PV):
+        return v
+    decl = fam["decls"][v.decl]
+    out = PV(v.decl)
+    for f in decl["fields"]:
+        if f["t"] == "em" or "describe" in f or f["name"] not in v.vals:
+            continue
+        out.vals[f["name"]] = strip_described(fam, v.vals[f["name"]])
+    return out
+
+
 def copy_val(v):
     if isinstance(v, PV):
         return PV(v.decl, {k: copy_val(x) for k, x in v.vals.items()})
@@ -652,7 +668,14 @@ class Parser:
                 L = self.rng.choice([0, 1, 2, 3, 5])
                 if W:
                     L = min(L, max(0, W - len(marker)))
-                body = bytes(self.rng.choice(BODY_ALPHABET) for _ in range(L))
+                # the body is free of the *marker*, not of its individual bytes (a lone '\r' inside a '\r\n' field)
+                alphabet = BODY_ALPHABET + (marker * 3 if len(marker) > 1 else b"")
+                for _ in range(6):
+                    body = bytes(self.rng.choice(alphabet) for _ in range(L))
+                    if (body + marker).find(marker) == len(body):
+                        break
+                else:
+                    body = bytes(self.rng.choice(BODY_ALPHABET) for _ in range(L))
                 buf.hint(cursor, body + marker)
             window = buf.read(cursor, cursor + W) if W else buf.tail(cursor)
             pos = window.find(marker)
